@@ -220,21 +220,24 @@ func (h CarHeader) Matches(other CarHeader) bool {
 		return h.Roots[0].Equals(other.Roots[0])
 	}
 
-	// Check other contains all roots.
+	// Check other holds the same roots the same number of times: with equal lengths, comparing the
+	// multiplicity of every root of h is enough. Only checking that other contains each root of h
+	// would let a header with a repeated root match any list that holds it.
 	// TODO: should this be optimised for cases where the number of roots are large since it has O(N^2) complexity?
 	for _, r := range h.Roots {
-		if !other.containsRoot(r) {
+		if h.countRoot(r) != other.countRoot(r) {
 			return false
 		}
 	}
 	return true
 }
 
-func (h *CarHeader) containsRoot(root cid.Cid) bool {
+func (h *CarHeader) countRoot(root cid.Cid) int {
+	n := 0
 	for _, r := range h.Roots {
 		if r.Equals(root) {
-			return true
+			n++
 		}
 	}
-	return false
+	return n
 }
